@@ -8,7 +8,7 @@ from props.C04 import call_results, RS_PUT, NRS, agg_field_operands
 from flow import backward
 
 META = {
-    "explanation_more": "Also (round 4): what a record file decodes to is the authenticated plaintext written for that key (C02's decrypt / encrypt gates and nonce derivation, evaluated here as C01.codec.*); the spawned write task and the read path contain no panic-capable construct on a record's key or value (C01.io.nopanic); a record file is never opened with create_new (a re-put of an existing key must succeed).",
+    "explanation_more": "Also (round 4): what a record file decodes to is the authenticated plaintext written for that key (C02's decrypt / encrypt gates and nonce derivation, evaluated here as C01.codec.*); the spawned write task and the read path contain no panic-capable construct on a record's key or value (C01.io.nopanic); a record file is never opened with create_new (a re-put of an existing key must succeed). Also (round 5): the write job and the delete job of a record file are handed to the same dispatch primitive (C01.jobs.same-queue — necessary, not sufficient, for their order); evictions and refusals are decided only by C10's capacity rules (C01.evict.*).",
     "explanation": "Decides: (1) NodeRecordStore.records / records_by_distance are mutated only by mark_as_stored and remove (and built by "
                    "with_config), records_cache only by put_verified and remove; put_verified and mark_as_stored are reachable only from the "
                    "PutLocalRecord / AddLocalRecordAsStored arms of SwarmDriver::handle_local_cmd; the network-facing RecordStore::put writes "
